@@ -53,6 +53,19 @@ def make_data(rng, n, d, kind="blobs", centers=3):
     return np.ascontiguousarray(X, dtype=np.float64)
 
 
+def with_twins(rng, X, noise=0.03):
+    """Redundant features: up to two columns become near copies of another column (x_j + a little noise).  Along a
+    regularisation path such twins flicker in and out of the selection - the feature count is no longer monotone."""
+    X = np.array(X, dtype=float, copy=True)
+    n, d = X.shape
+    if d < 2:
+        return X
+    for _ in range(int(rng.integers(1, 3))):
+        j, k = (int(v) for v in rng.choice(d, size=2, replace=False))
+        X[:, k] = X[:, j] + rng.normal(scale=noise * (float(np.std(X[:, j])) or 1.0), size=n)
+    return X
+
+
 def distinct_rows(rng, n, d, scale=1.0):
     """Data whose rows are pairwise distinct in every column (unique-id coding: a row identifies its sample)."""
     X = rng.normal(scale=scale, size=(n, d))
